@@ -156,3 +156,17 @@ Proof.
       * intros Hok. destruct (Hff Hok) as [pre [o' [Hd [Hfo Hall]]]].
         exists (o :: pre), o'. subst done. repeat split; auto.
 Qed.
+
+(* ---------- owner of a listed / stat'ed entry ---------- *)
+Lemma owner_from_interface : forall hs stat_ids iface_ids, fileStat_owner hs true stat_ids iface_ids = iface_ids.
+Proof. reflexivity. Qed.
+
+Lemma owner_from_stat_t : forall stat_ids iface_ids, fileStat_owner true false stat_ids iface_ids = stat_ids.
+Proof. reflexivity. Qed.
+
+Lemma owner_flag_set : forall hs hi n he, (hs || hi = true)%bool -> has (fileStat_flags hs hi n he) fl_uidgid = true.
+Proof. intros hs hi n he H. destruct hs, hi, he, n; try discriminate; vm_compute; reflexivity. Qed.
+
+Lemma longname_owner_agrees : forall hs hi stat_ids iface_ids,
+  ls_owner hs hi stat_ids iface_ids = fileStat_owner hs hi stat_ids iface_ids.
+Proof. reflexivity. Qed.
